@@ -23,7 +23,7 @@ PROP = {
         "'[*]' or '[0]' inside a body path are not generated (never matched by the implementation, not documented)",
         "the HAR collector is driven through harcollector.NewProcessor/Execute on the repository's mock API stream; the exported record is "
         "captured through contextmanager.WithFileExporter",
-        "half of the collector cases vary the transport: transaction_max_size_bytes (2^30, 4096, 256, 48), declared content-length (absent, honest, understated), gzip content-encoding; a transaction the collector drops because its declared size exceeds the limit exposes nothing and is counted, not judged",
+        "half of the collector cases vary the transport: transaction_max_size_bytes (2^30, 4096, 256, 48), declared content-length (absent, honest, understated), gzip content-encoding, and the media type the JSON body is declared with (application/json with or without charset, problem+json, vnd.api+json, hal+json, x-amz-json-1.1, other letter case, text/json, text/plain, octet-stream, or no content-type header): a JSON body is a JSON body whatever its label; a transaction the collector drops because its declared size exceeds the limit exposes nothing and is counted, not judged",
     ],
     "units": [
         {"pkg": "c16", "test": "TestObfuscateJSONCursor", "quick": 20000, "thorough": 150000, "shards": 16},
